@@ -107,6 +107,9 @@ func VerifPlans(arg string) {
 		vAssume(false)
 	}
 
+	if numa {
+		vNoSample() // NUMA plan order follows Go's random map order natively
+	}
 	plans := GetCPUPlans(nd.info, nil, sb, ms, req)
 
 	vCover("some-plan", len(plans) > 0)
